@@ -99,7 +99,7 @@ static void one_damage(hctx* h, const uint8_t* base, size_t n, const pageloc* pl
     long von = read_chunk_rows(path, dmg, n, mode, 1, pl->rg, pl->col);
     fflush(NULL);
     pid_t pid = fork();
-    if (pid == 0) { signal(SIGALRM, on_alarm_pg); alarm(10); (void)read_chunk_rows(path, dmg, n, mode, 0, pl->rg, pl->col); exit(0); }
+    if (pid == 0) { h_cpu_alarm(10, on_alarm_pg); (void)read_chunk_rows(path, dmg, n, mode, 0, pl->rg, pl->col); exit(0); }
     int st = 0; waitpid(pid, &st, 0);
     int rc = WIFEXITED(st) ? WEXITSTATUS(st) : 1000 + WTERMSIG(st);
     int changed = memcmp(dmg, base, n) != 0;
